@@ -363,3 +363,50 @@ pub fn c19_h3(rep: &Arc<Reporter>, args: &Args) {
         }
     });
 }
+
+// ------------------------------------------------------------------ C16 over HTTP/3
+
+pub fn c16_h3(rep: &Arc<Reporter>, args: &Args) {
+    use trusttunnel::verif::misc::metrics_snapshot;
+    let dir = env::work_dir(&args.root, "c16h3");
+    let rt = env::rt_multi(4);
+    rt.block_on(async {
+        let (open, _) = canary().await;
+        let hosts = Hosts { main: vec![("main.test".into(), vec![])], ..Default::default() };
+        // idle timeout T = 3 s: however the endpoint learns that an HTTP/3 client is gone, by 2T + margin everything must be released
+        let ep = start_endpoint(&dir, "127.0.0.1", &hosts, None, vec![], (true, true, true), |b| b.allow_private_network_connections(true).tcp_connections_timeout(Duration::from_secs(3))).await;
+        // wait until a predicate over the in-process metrics holds (bounded patience; never a verdict by itself)
+        async fn settle(ctx: &trusttunnel::verif::ctx::Ctx, pred: impl Fn(&trusttunnel::verif::misc::MetricsSnapshot) -> bool) -> (trusttunnel::verif::misc::MetricsSnapshot, bool) {
+            for _ in 0..400 { let s = metrics_snapshot(ctx); if pred(&s) { return (s, true); } tokio::time::sleep(Duration::from_millis(25)).await; }
+            (metrics_snapshot(ctx), false)
+        }
+        for round in 0..args.qt(3u64, 25u64) {
+            let n = [1usize, 70_001, 300_000][(round % 3) as usize];
+            let base = metrics_snapshot(&ep.ctx);
+            let Some(mut c) = h3_connect(rep, ep.addr, "main.test").await else { continue };
+            rep.evals(1);
+            rep.distinct(common::fnv(format!("c16h3|{}", round).as_bytes()));
+            let (s1, ok1) = settle(&ep.ctx, |s| s.sessions[2] == base.sessions[2] + 1).await;
+            let w = |what: &str, s: &trusttunnel::verif::misc::MetricsSnapshot| json!({"kind":"h3-metrics","round":round,"step":what,"in_process":format!("{:?}", s),"before":format!("{:?}", base)});
+            if !ok1 { rep.violation("client_sessions{HTTP3} differs from the number of live sessions after 'open-session h3'", w("open session", &s1)); c.close().await; continue; }
+            let Ok((id, st)) = c.roundtrip("CONNECT", None, &open.to_string(), None, &[], false, false, T).await else { rep.inconclusive("h3: request failed"); continue };
+            if st.status() != Some(200) { rep.inconclusive("h3: CONNECT to the echo peer not accepted"); c.close().await; continue; }
+            let (s2, ok2) = settle(&ep.ctx, |s| s.outbound_tcp == base.outbound_tcp + 1).await;
+            if !ok2 { rep.violation("outbound_tcp_sockets differs from the number of live outbound connections after 'open-tunnel h3'", w("open tunnel", &s2)); }
+            let data = crate::common::prng::coded_stream(round, 0, 0, n);
+            let _ = c.send_body(id, &data, false, Duration::from_secs(20)).await;
+            c.run_until(Duration::from_secs(20), |c| c.streams.get(&id).map(|s| s.body_len as usize >= n).unwrap_or(false)).await;
+            let (s3, ok3) = settle(&ep.ctx, |s| s.traffic[2].0 == base.traffic[2].0 + n as u64 && s.traffic[2].1 == base.traffic[2].1 + n as u64).await;
+            if !ok3 { rep.violation("traffic counters differ from the payload bytes relayed (HTTP/3 tunnel)", { let mut v = w("transfer", &s3); v["bytes_each_way"] = json!(n); v }); }
+            c.close().await;
+            let t_close = std::time::Instant::now();
+            let (mut s4, mut ok4) = settle(&ep.ctx, |s| s.sessions[2] == base.sessions[2] && s.outbound_tcp == base.outbound_tcp).await;
+            // the endpoint may only notice through its QUIC idle timeout: allow for it (observed and reported, not judged)
+            for _ in 0..1 { if ok4 { break; } let r = settle(&ep.ctx, |s| s.sessions[2] == base.sessions[2] && s.outbound_tcp == base.outbound_tcp).await; s4 = r.0; ok4 = r.1; }
+            rep.tally(&format!("h3: gauges back after the client closed: within {} s", (t_close.elapsed().as_secs() / 5 + 1) * 5), 1);
+            if !ok4 { rep.violation("gauges do not return to their previous values within 20 s (idle timeout 3 s) after the HTTP/3 client closed its connection", w("close session", &s4)); }
+            if ok1 && ok2 && ok3 && ok4 { rep.tally("h3: session gauge, outbound socket gauge and byte counters follow an HTTP/3 session", 1); }
+        }
+        ep.task.abort();
+    });
+}
